@@ -162,11 +162,10 @@ impl IntervalDomain {
         if let Ok(length) =
             (merged_domain.interval.end.clone() - &merged_domain.interval.start).try_to_u64()
         {
-            let widening_threshold = std::cmp::max(
-                merged_domain.widening_delay + 1,
-                merged_domain.widening_delay + merged_domain.interval.stride,
-            );
-            if length <= widening_threshold {
+            let widening_threshold = merged_domain
+                .widening_delay
+                .checked_add(std::cmp::max(1, merged_domain.interval.stride));
+            if widening_threshold.map_or(false, |threshold| length <= threshold) {
                 // Do not widen below the widening threshold.
                 // NOTE: The widening threshold may overflow. In this case we do perform widening.
                 return merged_domain;
